@@ -146,20 +146,38 @@ def spec_rows(S, with_serde_arms=False):
     for r in S.requests:
         req, resp, part = S.message_names(r, True)
         m = r["method"]
-        a[("request", m, "", "struct")] = req
-        a[("request", m, "", "response_struct")] = resp
+        a[("request", m, "", "struct")] = True
+        a[("request", m, "", "response_struct")] = True
         a[("request", m, "", "variant")] = True
         a[("request", m, "", "gated")] = bool(r.get("proposed"))
         a[("request", m, "", "response_gated")] = bool(r.get("proposed"))
         a[("request", m, "", "members")] = "id,jsonrpc,method,params"
+        _params_row(S, a, "request", m, r)
     for nt in S.notifications:
         cn, _, _ = S.message_names(nt, False)
         m = nt["method"]
-        a[("notification", m, "", "struct")] = cn
+        a[("notification", m, "", "struct")] = True
         a[("notification", m, "", "variant")] = True
         a[("notification", m, "", "gated")] = bool(nt.get("proposed"))
         a[("notification", m, "", "members")] = "jsonrpc,method,params"
+        _params_row(S, a, "notification", m, nt)
     return a, notes
+
+
+def _params_row(S, a, kind, m, msg):
+    """a message whose params reference a structure that HAS members (own, extended or mixed in) declares `params` with
+    that structure as its type (property-less params structures and absent params are left to the plugin's convention)"""
+    t = msg.get("params")
+    if isinstance(t, dict) and t["kind"] == "reference" and t["name"] in S.structs and S.flat_props(t["name"]):
+        a[(kind, m, "", "params_type")] = t["name"]
+
+
+def _params_impl(S, b, kind, m, msg, it):
+    t = msg.get("params")
+    if isinstance(t, dict) and t["kind"] == "reference" and t["name"] in S.structs and S.flat_props(t["name"]):
+        for f in it.fields:
+            if rustparse.field_wire_name(it, f) == "params":
+                b[(kind, m, "", "params_type")] = rustparse.norm_type(f[1])
 
 
 def serde_arms(text):
@@ -259,27 +277,40 @@ def impl_rows(S, items, text=None):
         return out
 
     rv, nv = variants(rm), variants(nm)
+    def first(names):
+        for n in names:
+            it = get(n) if n else None
+            if it is not None and it.kind == "struct":
+                return it
+        return None
+
     for r in S.requests:
+        # C07 fixes no naming rule for the message structs: the struct may be named after typeName - with the suffix
+        # appended as the python package does, or verbatim - or after the method; either is the message struct of the method
         req, resp, part = S.message_names(r, True)
+        req2, resp2, _ = S.message_names({"method": r["method"]}, True)
         m = r["method"]
-        it, rit = get(req), get(resp)
+        it, rit = first([req, req2, r.get("typeName")]), first([resp, resp2])
         if it is not None and it.kind == "struct":
-            b[("request", m, "", "struct")] = req
+            b[("request", m, "", "struct")] = True
             b[("request", m, "", "gated")] = it.gated
             b[("request", m, "", "members")] = ",".join(sorted(rustparse.field_wire_name(it, f) for f in it.fields))
+            _params_impl(S, b, "request", m, r, it)
         if rit is not None and rit.kind == "struct":
-            b[("request", m, "", "response_struct")] = resp
+            b[("request", m, "", "response_struct")] = True
             b[("request", m, "", "response_gated")] = rit.gated
         if m in rv:
             b[("request", m, "", "variant")] = True
     for nt in S.notifications:
         cn, _, _ = S.message_names(nt, False)
+        cn2, _, _ = S.message_names({"method": nt["method"]}, False)
         m = nt["method"]
-        it = get(cn)
+        it = first([cn, cn2, nt.get("typeName")])
         if it is not None and it.kind == "struct":
-            b[("notification", m, "", "struct")] = cn
+            b[("notification", m, "", "struct")] = True
             b[("notification", m, "", "gated")] = it.gated
             b[("notification", m, "", "members")] = ",".join(sorted(rustparse.field_wire_name(it, f) for f in it.fields))
+            _params_impl(S, b, "notification", m, nt, it)
         if m in nv:
             b[("notification", m, "", "variant")] = True
     # method-enum variants that name no method of the metamodel
